@@ -74,6 +74,10 @@ ASSUMPTIONS = [
     "been latched.  The end of the body before the caller reads is generated for Content-Length responses (one segment "
     "with more than 2 x read_bufsize bytes and the end); for chunked responses the chunk parser itself pauses mid-segment, "
     "which is not an event of the model.",
+    "Close-delimited responses (Connection: close / HTTP/1.0) never reach their end inside a random history (their end "
+    "is the peer's close; the model pools a connection at the end of a body); interim 1xx responses are generated only "
+    "when the implementation keeps the read timer across them (probe; open finding C18-interim-response-drops-read-timer), "
+    "and a close-delimited response is not paused while its caller is idle (open finding C18-timer-rearmed-by-connection-lost).",
     "Open known finding C18-stale-reader-resumes-foreign-connection: reading a completely received response resumes the "
     "connection even when it belongs to another, paused request by then; the model leaves other requests alone, random "
     "histories stay away from that step and the corpus case is evaluated by the oracle only.",
@@ -103,12 +107,21 @@ HEAD_CL = b"HTTP/1.1 200 OK\r\nContent-Type: text/plain\r\nContent-Length: %d\r\
 FULL_CL = HEAD_CL + PLAIN      # Content-Length framing: a segment can carry > 2*read_bufsize body bytes AND the end
 
 
+# bodies delimited by the close of the connection: HTTP/1.1 without length / chunking, and an HTTP/1.0 response
+HEAD_EOF = b"HTTP/1.1 200 OK\r\nContent-Type: text/plain\r\nConnection: close\r\n\r\n"
+HEAD_10 = b"HTTP/1.0 200 OK\r\nContent-Type: text/plain\r\n\r\n"
+LAYOUTS = {"chunked": (HEAD, FULL), "cl": (HEAD_CL, FULL_CL), "eof": (HEAD_EOF, HEAD_EOF + PLAIN), "http10": (HEAD_10, HEAD_10 + PLAIN)}
+CLOSE_DELIMITED = ("eof", "http10")
+INTERIMS = [b"HTTP/1.1 103 Early Hints\r\nLink: </style.css>; rel=preload\r\n\r\n", b"HTTP/1.1 102 Processing\r\n\r\n",
+            b"HTTP/1.1 100 Continue\r\n\r\n"]
+
+
 def full_of(layout):
-    return FULL_CL if layout == "cl" else FULL
+    return LAYOUTS[layout][1]
 
 
 def head_end_of(layout):
-    return len(HEAD_CL) if layout == "cl" else len(HEAD)
+    return len(LAYOUTS[layout][0])
 
 
 def build_model():
@@ -237,6 +250,7 @@ class World:
         self.started_at: dict = {}
         self.last_io: dict = {}       # t -> tick of the last socket activity that (re)starts the sock_read period
         self.cancelled: set = set()
+        self.interims: dict = {}
         self.eff_total: dict = {}
         self.limit = limit
         self.iter_hook = None         # called before every loop iteration (cancel sweep)
@@ -423,9 +437,30 @@ class World:
                 if p._paused:
                     p.resume_writing()
                     self.last_io[t] = self.tick()
+        elif op == "data" and st[2] == "interim":
+            # an interim response (100 Continue / 102 Processing / 103 Early Hints) in front of the real one
+            t = st[1]
+            tr = self.tr_of.get(t)
+            if (t in self.tasks and not self.tasks[t].done() and tr is not None and not tr.closed and tr.reading
+                    and self.sent.get(t, 0) == 0):
+                n = self.interims.get(t, 0)
+                self.interims[t] = n + 1
+                self.last_io[t] = self.tick()
+                tr.protocol.data_received(INTERIMS[n % len(INTERIMS)])
         elif op == "data":
             t, kind = st[1], st[2]
             self.deliver(t, next_cut(self.sent.get(t, 0), kind, self.layout(t)))
+        elif op == "raw":                         # second-hop suite: arbitrary response bytes for t's connection
+            tr = self.tr_of.get(st[1])
+            if tr is not None and not tr.closed and tr.protocol is not None:
+                tr.protocol.data_received(st[2].encode("latin-1"))
+        elif op == "peer_close":
+            tr = self.tr_of.get(st[1])
+            if tr is not None and not tr.closed:
+                tr.peer_close()
+        elif op == "forget_conn":                 # the hop is over: request t no longer owns that connection
+            self.tr_of.pop(st[1], None)
+            self.proto_of.pop(st[1], None)
         elif op == "bytes":                       # stall sweep: deliver up to an absolute offset
             self.deliver(st[1], st[2])
         elif op == "ws_start":
@@ -488,7 +523,10 @@ class World:
             if new > pos:
                 self.sent[t] = new
                 self.last_io[t] = self.tick()
-                tr.protocol.data_received(full_of(self.layout(t))[pos:new])
+                full = full_of(self.layout(t))
+                tr.protocol.data_received(full[pos:new])
+                if new >= len(full) and self.layout(t) in CLOSE_DELIMITED:
+                    tr.peer_close()          # the end of such a body IS the close of the connection
 
     # -- observation
     def bg_tasks(self):
@@ -593,8 +631,8 @@ _MARKS = _body_marks()
 
 def next_cut(pos, kind, layout="chunked"):
     """Next offset to deliver up to, starting at pos."""
-    if layout == "cl":
-        he, full = len(HEAD_CL), len(FULL_CL)
+    if layout != "chunked":
+        he, full = head_end_of(layout), len(full_of(layout))
         if kind == "part":
             if pos < he:
                 return min(pos + 7, he - 3)
@@ -649,7 +687,8 @@ def ev_word(st, tls=False):
     if op == "written":
         return f"W.{st[1]}"
     if op == "data":
-        return f"X.{st[1]}.{ {'part': 'p', 'head': 'h', 'big': 'b', 'end': 'e'}[st[2]] }"
+        # an interim response is, for the model, data that does not complete the head
+        return f"X.{st[1]}.{ {'part': 'p', 'head': 'h', 'big': 'b', 'end': 'e', 'interim': 'p'}[st[2]] }"
     if op == "read":
         return f"R.{st[1]}"
     if op == "cancel":
@@ -932,7 +971,7 @@ def gen_cfg(rng):
     thr = rng.choice([80, 80, 80, 32])
     kind = rng.random()
     cfg = {"total": None, "connect": None, "sock_connect": None, "sock_read": None, "thr": thr, "block": rng.random() < 0.25,
-           "plain": rng.random() < 0.4, "layout": rng.choice(["chunked", "cl"])}
+           "plain": rng.random() < 0.4, "layout": rng.choice(["chunked", "cl", "chunked", "cl", "eof", "http10"])}
     if kind < 0.15:
         pass
     elif kind < 0.75:
@@ -987,6 +1026,8 @@ def gen_history(rng, nreq, limit, offset, steps, tls=False):
                     if w.wpaused.get(t):
                         opts.append(("written", t))
                     if t not in w.head_at:
+                        if INTERIM_OK[0] and w.sent.get(t, 0) == 0 and w.interims.get(t, 0) < 2 and tr.reading:
+                            opts.append(("data", t, "interim"))
                         if parts.get((t, "h"), 0) < 6:
                             opts.append(("data", t, "part"))
                         opts += [("data", t, "head")] * 2
@@ -1004,9 +1045,13 @@ def gen_history(rng, nreq, limit, offset, steps, tls=False):
                             pos, lay = w.sent.get(t, 0), w.layout(t)
                             if parts.get((t, "b"), 0) < lim and next_cut(pos, "part", lay) > pos:
                                 opts.append(("data", t, "part"))
-                            if t not in big and parts.get((t, "b"), 0) <= 3 and next_cut(pos, "big", lay) > pos:
+                            # (a paused close-delimited response: open finding C18-timer-rearmed-by-connection-lost)
+                            if t not in big and parts.get((t, "b"), 0) <= 3 and next_cut(pos, "big", lay) > pos \
+                                    and (reading or lay not in CLOSE_DELIMITED):
                                 opts.append(("data", t, "big"))
-                            if reading:
+                            if lay in CLOSE_DELIMITED:
+                                pass         # ends only by the peer's close: left to the stall sweep and to finish()
+                            elif reading:
                                 opts += [("data", t, "end")] * 2
                             elif lay == "cl":
                                 # the rest of the body (> 2 x read_bufsize) and its end in one segment while the
@@ -1158,13 +1203,34 @@ def systematic_cases():
     return out
 
 
+INTERIM_OK = [False]
+
+
+def interim_rearms():
+    """Behavioural probe: does the sock_read timer survive an interim (1xx) response?  While the open finding
+    C18-interim-response-drops-read-timer stands it does not; random histories then leave interim responses out
+    (the model keeps the timer running) and the corpus case is evaluated by the oracle only."""
+    w = World(limit=1, offset=0)
+    try:
+        for st in (["start", 0, {"total": None, "connect": None, "sock_connect": None, "sock_read": 80, "thr": 80}],
+                   ["dns"], ["conn", 0], ["adv", 3], ["data", 0, "interim"]):
+            w.apply(st)
+        return bool(w.snapshot()["timers"])
+    finally:
+        w.close()
+
+
 def suite_histories(ctx, exe):
     rng = ctx.rng
+    INTERIM_OK[0] = interim_rearms()
+    ctx.count("probe:interim_response_keeps_read_timer:" + str(INTERIM_OK[0]))
     cases = []
     for path in sorted(glob.glob(os.path.join(fw.VERIF, "corpus", "C18", "*.json"))):
         c = json.load(open(path))
         c = c.get("case", c)
         if c.get("suite", "histories") == "histories":
+            if c.get("needs") == "interim":
+                c = dict(c, oracle_only=not INTERIM_OK[0])
             cases.append(c)
     cases += lookup_gap_cases()
     cases += systematic_cases()
@@ -1190,10 +1256,11 @@ def suite_histories(ctx, exe):
     ctx.close_suite("histories", ran)
 
 
-def stall_case(offset_bytes, which, T, start_off, reuse):
+def stall_case(offset_bytes, which, T, start_off, reuse, layout="chunked"):
     """History: a complete first exchange (when reuse), then a request whose response stalls after offset_bytes."""
-    cfg = {"total": None, "connect": None, "sock_connect": None, "sock_read": None, "thr": 80, "block": False}
+    cfg = {"total": None, "connect": None, "sock_connect": None, "sock_read": None, "thr": 80, "block": False, "layout": layout}
     cfg[which] = T
+    _HEAD_END = head_end_of(layout)
     h = []
     t = 0
     if reuse:
@@ -1211,7 +1278,8 @@ def stall_case(offset_bytes, which, T, start_off, reuse):
         if offset_bytes > _HEAD_END:
             h += [["bytes", t, offset_bytes]]
     h += [["adv", 400]]
-    return {"suite": "stall_sweep", "limit": 1, "offset": start_off, "history": h, "victim": t, "which": which, "T": T}
+    return {"suite": "stall_sweep", "limit": 1, "offset": start_off, "history": h, "victim": t, "which": which, "T": T,
+            "layout": layout}
 
 
 def run_stall(case):
@@ -1256,22 +1324,25 @@ def suite_stall_sweep(ctx):
     combos = [("sock_read", 20), ("total", 38), ("total", 90), ("sock_read", 96)]
     ran = 0
     obs = None
-    for o in offs:
-        if ctx.quick and o not in key:
-            todo = [combos[(o + ctx.seed) % 4]]
-        else:
-            todo = combos
-        for which, T in todo:
-            case = stall_case(o, which, T, rng.choice([0, 3, 8, 15]), reuse=(o % 3 == 1))
-            obs, problems = run_stall(case)
-            ran += 1
-            ctx.case((o, which, T, json.dumps(obs, sort_keys=True)), nontrivial=obs["outcome"] is not None and obs["outcome"][0] != "ok")
-            ctx.count("stall:" + ("head" if o < _HEAD_END else "body") + ":" + which)
-            if obs.get("early"):
-                ctx.disagreement("stall_sweep", case, f"failure exactly at {obs['expected']}", obs["outcome"])
-            for p in problems[:3]:
-                ctx.violation(case, p)
-    ctx.sample({"suite": "stall_sweep", "offsets": len(offs), "last": obs})
+    for li, layout in enumerate(LAYOUTS):
+        he, full = head_end_of(layout), len(full_of(layout))
+        lkey = key if layout == "chunked" else {0, 1, he - 3, he - 1, he, he + 1, he + 130, full - 5, full - 1}
+        for o in range(0, full):               # every byte offset; never the complete response
+            if ctx.quick and o not in lkey:
+                todo = [combos[(o + ctx.seed + li) % 4]]
+            else:
+                todo = combos
+            for which, T in todo:
+                case = stall_case(o, which, T, rng.choice([0, 3, 8, 15]), reuse=(o % 3 == 1), layout=layout)
+                obs, problems = run_stall(case)
+                ran += 1
+                ctx.case((layout, o, which, T, json.dumps(obs, sort_keys=True)), nontrivial=obs["outcome"] is not None and obs["outcome"][0] != "ok")
+                ctx.count("stall:" + layout + ":" + ("head" if o < he else "body") + ":" + which)
+                if obs.get("early"):
+                    ctx.disagreement("stall_sweep", case, f"failure exactly at {obs['expected']}", obs["outcome"])
+                for p in problems[:3]:
+                    ctx.violation(case, p)
+    ctx.sample({"suite": "stall_sweep", "layouts": list(LAYOUTS), "last": obs})
     ctx.close_suite("stall_sweep", ran)
 
 
@@ -1442,6 +1513,81 @@ def run_ws_close(T, offset, peer, cancel_k=None):
     finally:
         if not closed:
             w.close()
+
+
+def second_hop_cases():
+    """The total (and sock_connect) timeout must also bound the SECOND hop of a request: after a followed redirect
+    to another origin, or after the automatic retry of an idempotent request whose reused connection died, the peer
+    stalls while hop 2 resolves / connects."""
+    out = []
+    redirect = "HTTP/1.1 302 Found\r\nLocation: http://other.test/next\r\nContent-Length: 0\r\n\r\n"
+    for which, T in (("total", 38), ("total", 90), ("sock_connect", 20)):
+        for off in (0, 5):
+            for stall in ("dns", "connect"):
+                if which == "sock_connect" and stall == "dns":
+                    continue
+                cfg = {"total": None, "connect": None, "sock_connect": None, "sock_read": None, "thr": 80, "block": False}
+                cfg[which] = T
+                h = [["start", 0, cfg], ["adv", 1], ["dns"], ["conn", 0], ["adv", 2], ["raw", 0, redirect], ["forget_conn", 0], ["adv", 1]]
+                if stall == "connect":
+                    h += [["dns"], ["adv", 1]]
+                h += [["adv", 200]]
+                out.append({"suite": "second_hop", "mode": "redirect", "limit": 0, "offset": off, "victim": 0, "which": which, "T": T,
+                            "stall": stall, "history": h})
+            ok = {"total": 600, "connect": None, "sock_connect": None, "sock_read": None, "thr": 80, "block": False}
+            cfg = {"total": None, "connect": None, "sock_connect": None, "sock_read": None, "thr": 80, "block": False}
+            cfg[which] = T
+            h = [["start", 0, ok], ["dns"], ["conn", 0], ["data", 0, "head"], ["read", 0], ["data", 0, "end"], ["adv", 3],
+                 ["start", 1, cfg], ["adv", 2], ["peer_close", 1], ["forget_conn", 1], ["adv", 200]]
+            out.append({"suite": "second_hop", "mode": "retry", "limit": 0, "offset": off, "victim": 1, "which": which, "T": T,
+                        "stall": "connect", "history": h})
+    return out
+
+
+def run_second_hop(case):
+    w = World(limit=case["limit"], offset=case["offset"])
+    orc = Oracle(w)
+    v = case["victim"]
+    closed = False
+    try:
+        for st in case["history"]:
+            w.apply(st)
+            if st[0] not in ("raw", "forget_conn"):
+                orc.check(w.snapshot(), st)
+        out = w.outcome.get(v)
+        kind = "total_timeout" if case["which"] == "total" else "connect_timeout"
+        if case["which"] == "total":
+            T = case["T"]
+            bound = ceil_tick(w.started_at[v] + T) if T >= 80 else w.started_at[v] + T
+        else:
+            bound = w.sock_started.get(v, 0) + case["T"]
+        obs = {"outcome": list(out) if out else None, "expected": [kind, bound], "second_attempt": v in w.sock_started or bool(w.dns_calls > 1)}
+        if out is None:
+            orc.problems.append(f"request {v} never failed although hop 2 ({case['mode']}) stalls in {case['stall']} and "
+                                f"{case['which']}={case['T']} ticks is configured")
+        elif out[0] != kind or out[1] > bound:
+            orc.problems.append(f"request {v}: expected {kind} no later than tick {bound} in hop 2 ({case['mode']}), got {out}")
+        closed = True
+        orc.finish()
+        return obs, orc.problems
+    finally:
+        if not closed:
+            w.close()
+
+
+def suite_second_hop(ctx):
+    ran = 0
+    obs = None
+    for case in second_hop_cases():
+        obs, problems = run_second_hop(case)
+        ran += 1
+        ctx.case(("second_hop", case["mode"], case["which"], case["T"], case["stall"], case["offset"], json.dumps(obs, sort_keys=True)),
+                 nontrivial=True)
+        ctx.count("second_hop:" + case["mode"] + ":" + case["stall"])
+        for p in problems[:3]:
+            ctx.violation(case, p)
+    ctx.sample({"suite": "second_hop", "last": obs})
+    ctx.close_suite("second_hop", ran)
 
 
 WS_DEFAULT_CLOSE = 10 * TPS         # client_ws.DEFAULT_WS_CLIENT_TIMEOUT.ws_close
@@ -1631,6 +1777,7 @@ def run(ctx):
     suite_histories(ctx, exe)
     suite_stall_sweep(ctx)
     suite_cancel_sweep(ctx)
+    suite_second_hop(ctx)
     suite_ws_close(ctx)
 
 
@@ -1648,6 +1795,9 @@ def replay(ctx, case):
     if suite == "cancel_sweep":
         at, total, obs, problems = run_cancel(CANCEL_BASES[case["base"]], case["k"])
         return {"violates": bool(problems), "why": problems[:5], "impl": obs, "cancel_landed_at_tick": at}
+    if suite == "second_hop":
+        obs, problems = run_second_hop(case)
+        return {"violates": bool(problems), "why": problems[:5], "impl": obs}
     if suite == "ws_matrix":
         for name, cfg, phase, cb, rb in ws_matrix():
             if name == case["name"] and phase == case["phase"]:
@@ -1677,9 +1827,26 @@ def _sig_stale_reader(case, params):
     return False
 
 
+def _sig_interim(case, params):
+    return any(st[0] == "data" and st[2] == "interim" for st in case.get("history") or [])
+
+
+def _sig_conn_lost_timer(case, params):
+    """A close-delimited response is paused by a large block while its caller is idle, and the request then ends."""
+    h = case.get("history") or []
+    lay = {st[1]: st[2].get("layout") for st in h if st[0] == "start"}
+    for i, st in enumerate(h):
+        if st[0] == "data" and st[2] == "big" and lay.get(st[1]) in CLOSE_DELIMITED \
+                and not any(x[:2] == ["read", st[1]] for x in h[:i]):
+            return True
+    return False
+
+
 def _sig_ws_chatty(case, params):
     return case.get("suite") == "ws_close" and case.get("peer") == "text" and case.get("cancel_k") is None
 
 
 SIGNATURES: dict = {"ws_close_not_returned_chatty_peer": _sig_ws_chatty,
-                    "stale_reader_resumes_foreign_connection": _sig_stale_reader}
+                    "stale_reader_resumes_foreign_connection": _sig_stale_reader,
+                    "interim_response_drops_read_timer": _sig_interim,
+                    "timer_rearmed_by_connection_lost": _sig_conn_lost_timer}
